@@ -11,11 +11,12 @@
               CreateWallet w2 · NewAddress w1 ("a4") · reorgTo 1 [c2] · reorgTo 1 [e2] ·
               CRASH (e2, c2, e2 queued in the run that never stops; wallet on c2, w3 importing with cursor 1) · batch ·
               handle (e2) · handle (c2: STALE) · handle (e2: duplicate) · importDrain ·
-              RemoveWallet w1 · one iteration (step size 1: one of w1's two credits) · CRASH · removeDrain
+              RemoveWallet w1 · one iteration (step size 1: one of w1's two credits) · CreateWallet w4 · NewAddress w3 ("a9") ·
+              unconfirmed u2 (spends w3's coin) · CRASH · removeDrain
   The crashing run rolls c2 back and connects e2 inside Start (the follower does not record the payment to the wallet
   being restored), finds the rescan queued again and picks the payment up in its second batch; the run that never
   stops has its second batch put off twice, works off three notifications (one of them stale) and finishes in the
-  drain.  Both end with w3 ready, balance 30, and — after the removal — with w2 and w3 as the only wallets.
+  drain.  Both end with w3 ready, balance 30, and — after the removal — with w2, w3 and w4 as the only wallets.
 -/
 import MW.Lemmas.Deepen4Resume
 import MW.Lemmas.Deepen4Unguarded
@@ -38,13 +39,19 @@ def exKs3 : AMap.T Wid KsRec := ("w3", exR3) :: exKs0
 /-- after CreateWallet w2 and NewAddress w1 -/
 def exKs5 : AMap.T Wid KsRec :=
   [("w1", { next := 3, addrs := [(0, "a1"), (1, "a2"), (2, "a4")] }), ("w2", {}), ("w3", exR3)]
-def exKsE : AMap.T Wid KsRec := [("w2", {}), ("w3", exR3)]
+/-- at the end: w1 removed, w4 created and an address issued for w3 inside the removal window -/
+def exKsE : AMap.T Wid KsRec :=
+  [("w3", { next := 2, addrs := [(0, "a3"), (1, "a9")] }), ("w4", {}), ("w2", {})]
+
+/-- an unconfirmed transaction spending the restored wallet's coin, delivered inside the removal window -/
+def exU2 : Tx := ⟨"u2", false, [⟨"c4", 0, 0⟩], [⟨"a3", 30, .std⟩]⟩
 
 def exEvsT : List EvT :=
   [.q (.extend hxB1), .q .handle, .q (.extend hxC2), .q .handle, .importStart "w3" exR3, .importStep "w3",
    .q (.reorgTo 1 [exE2]), .importStep "w3", .q (.create "w2"), .q (.newAddr "w1" false), .q (.reorgTo 1 [hxC2]),
    .q (.reorgTo 1 [exE2]), .q .crash, .importStep "w3", .q .handle, .q .handle, .q .handle, .importDrain "w3" 5,
-   .removeMark "w1", .removeStep "w1", .q .crash, .removeDrain "w1"]
+   .removeMark "w1", .removeStep "w1", .q (.create "w4"), .q (.newAddr "w3" false), .q (.recvTx exU2), .q .crash,
+   .removeDrain "w1"]
 
 def exK0T : SkelT := { base := exK0 }
 
@@ -124,7 +131,9 @@ theorem exRunOKT : RunOKT exCfg hxG exK0T exEvsT := by
     ⟨⟨by simp, ex4OK exKs5 exE2 (Or.inl rfl) exValid5e⟩, (by show _ + _ < _; decide), trivial⟩,
     ⟨trivial, trivial, trivial⟩, rfl, ⟨trivial, trivial, trivial⟩, ⟨trivial, trivial, trivial⟩, ⟨trivial, trivial, trivial⟩,
     ⟨rfl, rfl, by decide⟩,
-    ⟨rfl, ⟨_, rfl, by decide⟩, "w3", by decide, by decide⟩, rfl, ⟨trivial, trivial, rfl⟩, rfl, trivial⟩
+    ⟨rfl, ⟨_, rfl, by decide⟩, "w3", by decide, by decide⟩, rfl,
+    ⟨trivial, trivial, (by show "w4" ≠ "w1"; decide)⟩, ⟨?_, trivial, (by show "w3" ≠ "w1"; decide)⟩, ⟨trivial, trivial, ?_⟩,
+    ⟨trivial, trivial, rfl⟩, rfl, trivial⟩
   · intro c hc
     have : c = [hxG] ∨ c = [hxG, hxB1] ∨ c = [hxG, hxB1, hxC2] := by
       have h' : c ∈ [[hxG], [hxG, hxB1], [hxG, hxB1, hxC2]] := hc
@@ -143,11 +152,44 @@ theorem exRunOKT : RunOKT exCfg hxG exK0T exEvsT := by
       have h' : c ∈ [[hxG], [hxG, hxB1], [hxG, hxB1, hxC2], [hxG, hxB1, exE2]] := hc
       simpa using h'
     rcases this with rfl | rfl | rfl | rfl <;> decide
+  · -- NewAddress w3 inside the removal window: "a9" is paid by no chain and new to the table
+    intro r hr
+    have : r = exR3 := by
+      have h' : AMap.get (("w4", {}) :: exKs5) "w3" = some r := hr
+      simp [exKs5, AMap.get_cons] at h'
+      exact h'.symm
+    subst this
+    refine ⟨?_, by decide⟩
+    intro c hc
+    have : c = [hxG] ∨ c = [hxG, hxB1] ∨ c = [hxG, hxB1, hxC2] ∨ c = [hxG, hxB1, exE2] := by
+      have h' : c ∈ [[hxG], [hxG, hxB1], [hxG, hxB1, hxC2], [hxG, hxB1, exE2], [hxG, hxB1, hxC2], [hxG, hxB1, exE2]] := hc
+      simp only [List.mem_cons, List.not_mem_nil, or_false] at h'
+      rcases h' with h | h | h | h | h | h
+      · exact Or.inl h
+      · exact Or.inr (Or.inl h)
+      · exact Or.inr (Or.inr (Or.inl h))
+      · exact Or.inr (Or.inr (Or.inr h))
+      · exact Or.inr (Or.inr (Or.inl h))
+      · exact Or.inr (Or.inr (Or.inr h))
+    rcases this with rfl | rfl | rfl | rfl <;> decide
+  · -- the unconfirmed transaction u2 is in no chain the node has had
+    intro c hc
+    have : c = [hxG] ∨ c = [hxG, hxB1] ∨ c = [hxG, hxB1, hxC2] ∨ c = [hxG, hxB1, exE2] := by
+      have h' : c ∈ [[hxG], [hxG, hxB1], [hxG, hxB1, hxC2], [hxG, hxB1, exE2], [hxG, hxB1, hxC2], [hxG, hxB1, exE2]] := hc
+      simp only [List.mem_cons, List.not_mem_nil, or_false] at h'
+      rcases h' with h | h | h | h | h | h
+      · exact Or.inl h
+      · exact Or.inr (Or.inl h)
+      · exact Or.inr (Or.inr (Or.inl h))
+      · exact Or.inr (Or.inr (Or.inr h))
+      · exact Or.inr (Or.inr (Or.inl h))
+      · exact Or.inr (Or.inr (Or.inr h))
+    rcases this with rfl | rfl | rfl | rfl <;> decide
 
 /-- the state hypothesis of the removal holds in both runs: no unmined credit when RemoveWallet is called -/
 theorem exGuard (cr : Bool) : GuardT exCfg cr exX0 exEvsT := by
   refine ⟨trivial, trivial, trivial, trivial, trivial, trivial, trivial, trivial, trivial, trivial, trivial, trivial,
-    trivial, trivial, trivial, trivial, trivial, trivial, ?_, trivial, trivial, trivial, trivial⟩
+    trivial, trivial, trivial, trivial, trivial, trivial, ?_, trivial, trivial, trivial, trivial, trivial, trivial, trivial⟩
   intro X _ e he
   have : (runT exCfg cr exX0 (exEvsT.take 18)).P.led.pendCred = [] := by cases cr <;> decide
   have he' : e ∈ (runT exCfg cr exX0 (exEvsT.take 18)).P.led.pendCred := he
@@ -191,14 +233,15 @@ example : AMap.get (runT exCfg true exX0 (exEvsT.take 14)).P.led.status "w3" = s
     (runT exCfg false exX0 (exEvsT.take 16)).queue.map (·.id) = ["e2"] := by decide
 
 /-- when the import window is closed both runs agree; the removal of w1 (credits c1:0 and c4:1) takes two iterations,
-    the crash between them finds the flag and queues the removal again; at the end w2 and w3 are the only wallets and
-    w3 keeps its coin c4:0 (the transaction record of c4 was needed by both wallets) -/
+    the crash between them (after a CreateWallet, a NewAddress and an unconfirmed transaction inside the window) finds the
+    flag and queues the removal again; at the end w2, w3 and w4 are the only wallets and w3 keeps its coin c4:0 (the transaction record of c4 was needed by both wallets) -/
 example : AMap.get (runT exCfg false exX0 (exEvsT.take 18)).P.led.balance "w3" = some 30 ∧
     (runT exCfg true exX0 (exEvsT.take 19)).P.led.credits.length = 3 ∧
     (runT exCfg true exX0 (exEvsT.take 20)).P.led.credits.length = 2 ∧
-    (runT exCfg true exX0 (exEvsT.take 21)).V.tasks = [.rem "w1"] ∧
+    (runT exCfg true exX0 (exEvsT.take 24)).V.tasks = [.rem "w1"] ∧
     (runT exCfg true exX0 exEvsT).P.ks = exKsE ∧ (runT exCfg true exX0 exEvsT).V.keys = exKsE ∧
-    (runT exCfg true exX0 exEvsT).P.led.status.map (·.1) = ["w3", "w2"] ∧
+    (runT exCfg true exX0 exEvsT).P.led.status.map (·.1) = ["w4", "w3", "w2"] ∧
+    (runT exCfg true exX0 exEvsT).P.led.pending.map (·.1) = ["u2"] ∧
     AMap.get (runT exCfg true exX0 exEvsT).P.led.balance "w3" = some 30 ∧
     (runT exCfg true exX0 exEvsT).P.led.credits.map (fun e => (e.1.tx, e.1.idx)) = [("c4", 0)] ∧
     (runT exCfg true exX0 exEvsT).P.led.txrecs.map (·.1.1) = ["c4"] := by decide
